@@ -1,5 +1,6 @@
 import MoneroModel.Drv.Util
 import MoneroModel.Model.Keys
+import MoneroModel.Model.KeyOps
 import MoneroModel.Ref.Ed25519
 open Monero
 namespace Drv
@@ -34,13 +35,20 @@ def specShow (accept : List UInt8 → Bool) (b : List UInt8) : String :=
   if accept b then Hex.encode ((Hex.encode b).toList.map fun c => UInt8.ofNat c.toNat) else "err"
 def specCons (accept : List UInt8 → Bool) (b : List UInt8) : String :=
   if 32 ≤ b.length ∧ accept (b.take 32) then s!"ok {Hex.encode (b.take 32)} 32" else "err"
+/-- model side of the operators: `err` = an operand refused by `from_slice`, `PANIC` = the `expect` of `point()` fails -/
+def showOp (o : Option (Option Bytes)) : String :=
+  match o with | none => "err" | some none => "PANIC" | some (some k) => Hex.encode k
+def showOp1 (o : Option Bytes) : String := match o with | none => "err" | some k => Hex.encode k
 end C13
 open C13
 /-- C13 operations (byte strings in hex).
 `c13_sk <b>` / `c13_pk <b>` → `ok`|`err` (model: `Keys.secretAccept` / `Keys.publicAccept`; spec: `leNat < l` / RFC 8032 decoding);
 `c13_pub_of <scalar>` → point; `c13_add <P> <Q>`, `c13_sub <P> <Q>`, `c13_smul <scalar> <P>` → point; `c13_sadd <a> <b>`,
-`c13_smulmul <a> <b>` → scalar (32-byte LE); all `err` if an operand is not an accepted key. Model side `-` (the operators
-delegate to dalek), spec side = reference group law.
+`c13_smulmul <a> <b>` → scalar (32-byte LE); all `err` if an operand is not an accepted key. Model side = `Model/KeyOps.lean`
+(`from_slice` of the operands, permissive `point()`, extended-coordinate arithmetic, recompression; `PANIC` if `point()` fails),
+spec side = strict RFC 8032 decoding + reference group law / arithmetic modulo `l`.
+`c13_smul_u8 <a> <n>` → scalar (`PrivateKey * u8`, n < 256 in decimal). `c13_serde_double <b>` → `ok <k + k>`|`ok PANIC`|`err`:
+a `PublicKey` built WITHOUT validation (serde `Deserialize`) from any 32 bytes, then `k + k`; model `Keys.keyAdd b b`, no spec side.
 `c13_pk_str <hex of the ASCII text>` / `c13_sk_str` → `ok <bytes>`|`err` (FromStr); `c13_pk_show <b>` / `c13_sk_show <b>` → hex text
 of the accepted key (Display) as hex-of-ASCII | `err`; `c13_pk_cons <b>` / `c13_sk_cons <b>` → `ok <re-encoded> <consumed>`|`err`
 (consensus decode of a prefix, then encode); `c13_dalek_decompress <b>` → recompressed bytes of dalek's permissive
@@ -53,17 +61,30 @@ def stepC13 : Step
     if b.length != 32 then some ("err", "-") else
     some ((match Keys.decompressDalek (Ed.leNat b) with | none => "err" | some P => Hex.encode (Ed.encodePt P)), "-")
   | ["c13_pub_of", a] =>
-    some ("-", showPt ((specScalar (Hex.decode a)).map fun n => Ed.smul n Ed.G))
+    some (showOp1 (Keys.opPubOf (Hex.decode a)), showPt ((specScalar (Hex.decode a)).map fun n => Ed.smul n Ed.G))
   | ["c13_add", a, b] =>
-    some ("-", showPt (match specPt (Hex.decode a), specPt (Hex.decode b) with | some P, some Q => some (Ed.add P Q) | _, _ => none))
+    some (showOp (Keys.opAdd (Hex.decode a) (Hex.decode b)),
+      showPt (match specPt (Hex.decode a), specPt (Hex.decode b) with | some P, some Q => some (Ed.add P Q) | _, _ => none))
   | ["c13_sub", a, b] =>
-    some ("-", showPt (match specPt (Hex.decode a), specPt (Hex.decode b) with | some P, some Q => some (Ed.sub P Q) | _, _ => none))
+    some (showOp (Keys.opSub (Hex.decode a) (Hex.decode b)),
+      showPt (match specPt (Hex.decode a), specPt (Hex.decode b) with | some P, some Q => some (Ed.sub P Q) | _, _ => none))
   | ["c13_smul", a, b] =>
-    some ("-", showPt (match specScalar (Hex.decode a), specPt (Hex.decode b) with | some n, some P => some (Ed.smul n P) | _, _ => none))
+    some (showOp (Keys.opSmul (Hex.decode a) (Hex.decode b)),
+      showPt (match specScalar (Hex.decode a), specPt (Hex.decode b) with | some n, some P => some (Ed.smul n P) | _, _ => none))
   | ["c13_sadd", a, b] =>
-    some ("-", showSc (match specScalar (Hex.decode a), specScalar (Hex.decode b) with | some x, some y => some ((x + y) % Ed.l) | _, _ => none))
+    some (showOp1 (Keys.opScalarAdd (Hex.decode a) (Hex.decode b)),
+      showSc (match specScalar (Hex.decode a), specScalar (Hex.decode b) with | some x, some y => some ((x + y) % Ed.l) | _, _ => none))
   | ["c13_smulmul", a, b] =>
-    some ("-", showSc (match specScalar (Hex.decode a), specScalar (Hex.decode b) with | some x, some y => some ((x * y) % Ed.l) | _, _ => none))
+    some (showOp1 (Keys.opScalarMul (Hex.decode a) (Hex.decode b)),
+      showSc (match specScalar (Hex.decode a), specScalar (Hex.decode b) with | some x, some y => some ((x * y) % Ed.l) | _, _ => none))
+  | ["c13_smul_u8", a, n] =>
+    let k := n.toNat!
+    if k ≥ 256 then some ("err", "err") else
+    some (showOp1 (Keys.opScalarMulU8 (Hex.decode a) k), showSc ((specScalar (Hex.decode a)).map fun x => (x * k) % Ed.l))
+  | ["c13_serde_double", h] =>
+    let b := Hex.decode h
+    if b.length != 32 then some ("err", "-") else
+    some ("ok " ++ (match Keys.keyAdd b b with | none => "PANIC" | some r => Hex.encode r), "-")
   | ["c13_pk_str", h] => some (showKey (Keys.publicFromStr (asciiChars (Hex.decode h))), specText (fun b => (specPt b).isSome) (Hex.decode h))
   | ["c13_sk_str", h] => some (showKey (Keys.secretFromStr (asciiChars (Hex.decode h))), specText (fun b => (specScalar b).isSome) (Hex.decode h))
   | ["c13_pk_show", h] =>
